@@ -28,7 +28,7 @@ CHECKS = {
           "re-loads behind a seq_cst fence on every path from the 16-bit stores with the 2^16 threshold, every USE_FUTEX_WAKE=true "
           "public entry reaches a waiter check after each version store on all paths, and the timed exclusive pop only waits with the "
           "caller's deadline. Each is a necessary condition: breaking it yields a 3-step window with a sleeper never woken, which the "
-          "100 ms-sleep tests cannot hit. Global deadlock freedom and kernel futex behaviour are not decided.",
+          "100 ms-sleep tests cannot hit. Global deadlock freedom and kernel futex behaviour are not decided. Also: no path from the futex wait back to itself avoids the recomputation of the remaining time (R5e).",
   "note": "Trusted: kernel futex compare-and-block semantics; clang 14 CFG; x86-64 branch of the sources.",
   "technique": "static analysis: edge-guard / must-pass-through / provenance rules over inlined CFG facts (custom libTooling extractor)"},
  "C04": {
@@ -52,7 +52,7 @@ CHECKS = {
           "the futex word, register before sleeping, wait on the observed word and report ready only under the READY bit; the latch fires on "
           "equality of the fetch_sub result; the shared state is neither copyable nor movable. These are the racing cases (registration CAS "
           "losing to the seal, waiter registering while the setter swaps in READY) that the sleep-ordered tests never produce. Timing of "
-          "wait_for and suspected S1 (waiter count never decremented) are not decided.",
+          "wait_for and suspected S1 (waiter count never decremented) are not decided. Also: a latch constructed with 0 is born fired (R4d); then() fulfils the derived future exactly once with the callback's result, takes the future before the promise moves, and Promise::set_value pins the shared state with a local shared_ptr (R6).",
   "note": "Trusted: clang 14 CFG; kernel futex semantics; MoveOnlyFunction invocation is opaque.",
   "technique": "static analysis: exactly-once path counting, dominance, edge-guard, memory-order and use-after-release rules over CFG facts"},
  "C10": {
@@ -62,7 +62,7 @@ CHECKS = {
           "lowest_epoch <= low_water_mark(), the reclaimed count is incremented exactly once per invocation and is what advances the cursor, "
           "stop() pushes the default (UINT64_MAX) marker before join under joinable(), the destructor stops, retire stamps a fresh tick, "
           "and the queue flag pairing / single-consumer precondition of the non-concurrent pop. The tests only stop an already idle "
-          "collector, so the batch-shared-with-marker path is never staged. Which regions are open (Epoch) is C09; schedule-level exactly-once is not decided.",
+          "collector, so the batch-shared-with-marker path is never staged. Which regions are open (Epoch) is C09; schedule-level exactly-once is not decided. Also: every popped task that is not the stop marker is appended to the batch (R3g).",
   "note": "Trusted: clang 14 CFG; std::thread/std::vector are opaque; the bounded queue (C01/C02) delivers what was pushed.",
   "technique": "static analysis: must-pass-through (typestate of the task buffer), edge-guard and counting rules over CFG facts; who-may-call pairing"},
  "C09": {
@@ -116,7 +116,7 @@ CHECKS = {
           "element count and empty() is not answered from the head alone (all three violated by the original tree: finding F1, replayed "
           "and fixed); rebuild paths iterate through begin()/end() and size the target from size(); user-provided move/swap members "
           "transfer every field. None of the unit tests iterates, copies or reserves a set that grew from the default state. Equality "
-          "with std::unordered_set over histories is not decided.",
+          "with std::unordered_set over histories is not decided. Also: a table iterator is compared only with the end() of the table it came from (R8).",
   "note": "Trusted: clang 14 CFG; the fixed table's own iteration (find_first_non_empty) is not analysed.",
   "technique": "static analysis: traversal-progress, flow-sensitive provenance, special-member completeness and who-sizes-from-what rules over CFG facts"},
  "C06": {
@@ -152,7 +152,7 @@ CHECKS = {
           "exactly when invoke refused, submit(CoroutineTask) binds the executor first and destroys the frame exactly on refusal; the "
           "sleeping global pop is woken by every global push and the non-atomic local push is reachable only behind is_running_in() "
           "through the thread-local queue. A dropped task shows only as a future that never becomes ready. That an accepted task runs "
-          "under every interleaving with steal/balance is not decided. Also: a task stolen inside the per-block steal sweep is dispatched before any further pop into the same variable, across callback invocations and after the sweep (R3e/R3f).",
+          "under every interleaving with steal/balance is not decided. Also: a task stolen inside the per-block steal sweep is dispatched before any further pop into the same variable, across callback invocations and after the sweep (R3e/R3f). Also: enqueue_task reports success only behind a blocking push or the success edge of a try_push (R3g).",
   "note": "Trusted: clang 14 CFG; std::thread; the bounded queue (C01/C02). Observation O4 (coroutine execute ignores a refused submit) is outside the quantifier and not armed.",
   "technique": "static analysis: scope-dominance, ordering, switch exhaustiveness over the enum's enumerators, edge-guard and who-may-call pairing rules over CFG facts"},
  "C16": {
@@ -184,7 +184,7 @@ CHECKS = {
           "for_each_alive (live-id enumeration); the comparer's reset only bumps the version, a stale-version write overwrites value and "
           "version, readers skip stale slots; the adder does a plain read-add-write on its own slot and reset zeroes all; move members "
           "transfer every field. Slot recycling across generations of threads / instances needs long create-destroy histories the tests do "
-          "not produce. Exactness of sums under concurrent readers is not decided.",
+          "not produce. Exactness of sums under concurrent readers is not decided. Also: reset() of the aggregates walks every slot ever used, like value() (R3a).",
   "note": "Trusted: clang 14 CFG; ConcurrentVector (C04) and IdAllocator (C14).",
   "technique": "static analysis: ordering/dominance, resolved-callee (who sums over what), edge-guard and special-member completeness rules over CFG facts"},
  "C20": {
@@ -231,7 +231,7 @@ CHECKS = {
           "(finding F8: emplace_back repaired, emplace/insert/resize(value) listed as known findings); reconstruct of a clearable "
           "type clears. The boundary combinations of size/constructed/capacity are reached only by operation sequences no test "
           "enumerates. Equivalence with std::vector/std::string, the index arithmetic of the shifting loops and zero growth at "
-          "convergence are not decided.",
+          "convergence are not decided. Also: the walk collecting element capacities of repeated string/message fields is bounded by size()+ClearedCount() (R4d).",
   "note": "Trusted: clang 14 CFG and template instantiation; the monotonic allocator (C06); protobuf message traits are not instantiated "
           "(they need a generated message type).",
   "technique": "static analysis: who-may-write / monotone-update rules, construct-increment pairing, edge-guard classification against the constructed boundary, ordering (update < release < recreate), sibling agreement and argument-use-after-relocation reachability over CFG facts of instantiated templates"},
